@@ -50,7 +50,7 @@ Proof. exact dsir_both_rejected. Qed.
 
 Theorem C05_basic_discrete_SIR_rho_and_infecteds_rejected : forall g p ord i0 r0o rho tmin tmax full fuel,
   basic_discrete_SIR g p ord (Some i0) r0o (Some rho) tmin tmax full fuel = Fail EoNError.
-Proof. intros. reflexivity. Qed.
+Proof. intros. exact (dsir_both_rejected g (simple_rules p) None ord i0 r0o rho tmin tmax full fuel). Qed.
 
 Theorem C05_basic_discrete_SIS_rho_and_infecteds_rejected : forall g R ord i0 rho tmin tmax full fuel,
   basic_discrete_SIS_R g R ord (Some i0) (Some rho) tmin tmax full fuel = Fail EoNError.
@@ -71,9 +71,30 @@ Theorem C05_discrete_SIR_rho_selects_round_N_rho_distinct_nodes : forall g R tre
   NoDup (gnodes g) ->
   reach (discrete_SIR g R trec ord None r0o rho tmin tmax full fuel) out ->
   let n := match rho with None => 1%Z | Some r => d_round_half_even (Qnat (length (gnodes g)) * r) end in
+  (rho = None \/ r0o = None) /\
   (0 <= n)%Z /\ exists i0, NoDup i0 /\ incl i0 (gnodes g) /\ Z.of_nat (length i0) = n /\
     reach (discrete_SIR g R trec ord (Some i0) r0o None tmin tmax full fuel) out.
 Proof. exact dsir_rho. Qed.
+
+(* rho together with initial_recovereds is rejected with EoNError (repaired in /repo 124218e: before,
+   random.sample could draw an initially recovered node as initially infected, S went negative and R
+   exceeded N) -- whatever initial_infecteds is; basic_discrete_SIR inherits it; the percolation wrapper
+   has already percolated the network (one test per edge of G) when discrete_SIR raises *)
+Theorem C05_discrete_SIR_rho_and_initial_recovereds_rejected : forall g R trec ord i0o r0 rho tmin tmax full fuel,
+  discrete_SIR g R trec ord i0o (Some r0) (Some rho) tmin tmax full fuel = Fail EoNError.
+Proof. exact dsir_rho_r0_rejected. Qed.
+
+Theorem C05_basic_discrete_SIR_rho_and_initial_recovereds_rejected : forall g p ord i0o r0 rho tmin tmax full fuel,
+  basic_discrete_SIR g p ord i0o (Some r0) (Some rho) tmin tmax full fuel = Fail EoNError.
+Proof. intros. reflexivity. Qed.
+
+Theorem C05_percolation_based_discrete_SIR_rho_and_initial_recovereds_rejected : forall g R ord i0o r0 rho tmin tmax full fuel,
+  percolation_based_discrete_SIR_R g R ord i0o (Some r0) (Some rho) tmin tmax full fuel =
+    bind (percolate_network_R g R) (fun _ => Fail EoNError) /\
+  (forall out, ~ reach (percolation_based_discrete_SIR_R g R ord i0o (Some r0) (Some rho) tmin tmax full fuel) out) /\
+  (forall e, reach_err (percolation_based_discrete_SIR_R g R ord i0o (Some r0) (Some rho) tmin tmax full fuel) e ->
+     e = EoNError \/ exists es kept q, reach_err (perc_loop R es kept q) e).
+Proof. exact psir_rho_r0_rejected. Qed.
 
 Theorem C05_basic_discrete_SIS_rho_selects_round_N_rho_distinct_nodes : forall g R ord rho tmin tmax full fuel out,
   NoDup (gnodes g) ->
@@ -83,9 +104,8 @@ Theorem C05_basic_discrete_SIS_rho_selects_round_N_rho_distinct_nodes : forall g
     reach (basic_discrete_SIS_R g R ord (Some i0) None tmin tmax full fuel) out.
 Proof. exact dsis_rho. Qed.
 
-(* ... so a rho run WITHOUT initial_recovereds is inside the domain of all the theorems: its rows pass
-   the C04 checker and row 0 is (N - n, n, 0), n = int(round(N*rho)) (with initial_recovereds the
-   sample may overlap them: the finding at the end of this file) *)
+(* ... so every rho run that is not rejected (i.e. without initial_recovereds) is inside the domain of all
+   the theorems: its rows pass the C04 checker and row 0 is (N - n, n, 0), n = int(round(N*rho)) *)
 Theorem C05_discrete_SIR_rho_run_rows : forall g R trec ord rho tmin tmax full fuel out,
   NoDup (gnodes g) -> (forall u v, In u (gnodes g) -> In v (gadj g u) -> In v (gnodes g)) ->
   perm_oracle ord -> (full = true -> pick_sound R) ->
@@ -169,28 +189,17 @@ Proof.
     eexists; eexists; (split; [vm_compute; reflexivity|]); vm_compute; repeat split.
 Qed.
 
-(* ---------------- a finding: rho together with initial_recovereds ----------------
-   "The given initially recovered nodes are R (and are never infected later)" and the counts of
-   C04 FAIL for discrete_SIR (hence basic_discrete_SIR, percolation_based_discrete_SIR) when rho is
-   given together with initial_recovereds: random.sample(list(G), n) draws among ALL nodes, an
-   initially recovered node may be drawn as initially infected, row 0 counts it twice and S goes
-   negative / R exceeds N.  (fast_SIR and fast_nonMarkov_SIR reject this argument combination
-   with EoNError; Gillespie_SIR accepts it and can raise KeyError.)  Witness: the path 0-1-2-3,
-   every contact succeeds, initial_recovereds = [0;1], rho = 1/2, the sample [1;2]:
-   rows (0,[0;2;2]), (1,[-1;1;4]), (2,[-1;0;5]).  Reproduced on the code (harness/discx.py
-   [probe_rho_r0], proposed_known_findings.json).  The theorems above quantify over explicit,
-   disjoint initial sets ([wf_inputb]); [C05_discrete_SIR_rho_selects_round_N_rho_distinct_nodes]
-   says precisely which explicit set a rho run starts from -- it need not be disjoint from R0. *)
+(* the input of the former finding (path 0-1-2-3, initial_recovereds = [0;1], rho = 1/2) is now rejected
+   before any draw is made *)
 Definition path4_adj (u : node) : list node :=
   match u with 0%N => [1]%N | 1%N => [0; 2]%N | 2%N => [1; 3]%N | 3%N => [2]%N | _ => [] end.
 Definition path4 : graph := mkGraph [0; 1; 2; 3]%N path4_adj path4_adj false (fun _ _ => 1) (fun _ => 1) false false.
-
-Theorem C05_discrete_SIR_rho_respects_initial_recovereds_refuted :
-  exists o tr, exec (discrete_SIR path4 (det_rules (fun _ _ _ => true) (fun _ _ => O)) None (fun _ l => l) None (Some [0; 1]%N) (Some (1 # 2)) 0 None false 9) [1] [] = (Ok o, tr) /\
-    map snd (so_rows (o_sim o)) = [[0; 2; 2]; [-1; 1; 4]; [-1; 0; 5]]%Z /\
-    dwf_rowsb true true path4 0 None (so_rows (o_sim o)) = false.
-Proof. eexists. eexists. split; [vm_compute; reflexivity|]. vm_compute. split; reflexivity. Qed.
-Print Assumptions C05_discrete_SIR_rho_respects_initial_recovereds_refuted.
+Example C05_disc_rho_with_initial_recovereds_example :
+  exec (discrete_SIR path4 (det_rules (fun _ _ _ => true) (fun _ _ => O)) None (fun _ l => l) None (Some [0; 1]%N) (Some (1 # 2)) 0 None false 9) [1] [] = (Err EoNError, []) /\
+  (exists o tr, exec (discrete_SIR path4 (det_rules (fun _ _ _ => true) (fun _ _ => O)) None (fun _ l => l) None None (Some (1 # 2)) 0 None false 9) [1] [] = (Ok o, tr) /\
+     map snd (so_rows (o_sim o)) = [[2; 2; 0]; [0; 2; 2]; [0; 0; 4]]%Z).
+Proof. split; [vm_compute; reflexivity|]. eexists. eexists. split; vm_compute; reflexivity. Qed.
+Print Assumptions C05_disc_rho_with_initial_recovereds_example.
 
 Print Assumptions C05_discrete_SIR_row0_is_the_request.
 Print Assumptions C05_basic_discrete_SIS_row0_is_the_request.
@@ -201,6 +210,9 @@ Print Assumptions C05_basic_discrete_SIR_rho_and_infecteds_rejected.
 Print Assumptions C05_basic_discrete_SIS_rho_and_infecteds_rejected.
 Print Assumptions C05_percolation_based_discrete_SIR_rho_and_infecteds_rejected.
 Print Assumptions C05_discrete_SIR_rho_selects_round_N_rho_distinct_nodes.
+Print Assumptions C05_discrete_SIR_rho_and_initial_recovereds_rejected.
+Print Assumptions C05_basic_discrete_SIR_rho_and_initial_recovereds_rejected.
+Print Assumptions C05_percolation_based_discrete_SIR_rho_and_initial_recovereds_rejected.
 Print Assumptions C05_basic_discrete_SIS_rho_selects_round_N_rho_distinct_nodes.
 Print Assumptions C05_discrete_SIR_rho_run_rows.
 Print Assumptions C05_discrete_rounding_is_round_half_even.
@@ -211,3 +223,18 @@ Print Assumptions C05_percolation_based_discrete_SIR_checker_accepts_every_run.
 Print Assumptions C05_discrete_checker_sound.
 Print Assumptions C05_disc_hypotheses_satisfiable.
 Print Assumptions C05_disc_example.
+
+(* ---------------- a residual finding: neither rho nor initial_infecteds, with initial_recovereds ----
+   When neither rho nor initial_infecteds is given the code starts from ONE node drawn by
+   random.sample(list(G), 1) among ALL nodes: with initial_recovereds given that node may be an initially
+   recovered one, and then (as in the rho case repaired by /repo 124218e) row 0 counts it twice, S goes
+   negative and R exceeds N.  Witness: the path 0-1-2-3, initial_recovereds = [0;1;2], the sample [2]:
+   rows (0,[0;1;3]), (1,[-1;1;4]), (2,[-1;0;5]); reproduced on the code (discrete_SIR and Gillespie_SIR),
+   proposed_known_findings.json.  Outside the domain of the theorems above (they quantify over explicit
+   disjoint sets, or over rho without initial_recovereds). *)
+Theorem C05_discrete_SIR_default_node_respects_initial_recovereds_refuted :
+  exists o tr, exec (discrete_SIR path4 (det_rules (fun _ _ _ => true) (fun _ _ => O)) None (fun _ l => l) None (Some [0; 1; 2]%N) None 0 None false 9) [2] [] = (Ok o, tr) /\
+    map snd (so_rows (o_sim o)) = [[0; 1; 3]; [-1; 1; 4]; [-1; 0; 5]]%Z /\
+    dwf_rowsb true true path4 0 None (so_rows (o_sim o)) = false.
+Proof. eexists. eexists. split; [vm_compute; reflexivity|]. vm_compute. split; reflexivity. Qed.
+Print Assumptions C05_discrete_SIR_default_node_respects_initial_recovereds_refuted.
